@@ -251,6 +251,10 @@ def fast_stream(ctx, n):
             costs = [F(r.choice([1, 2, 3, 4])) for _ in names]
             ballots = [[x for x in names if r.random() < 0.5] for _ in range(r.randint(3, 6))]
             case = Case(list(zip(names, costs)), F(r.randint(2, int(sum(costs)) + 1)), "app", ballots, seed=r.getrandbits(32))
+        if case.seed % 6 == 0:
+            # names of mixed kinds ("2", "10", "1a", "07", …): the order on projects that sorts and de-duplicates the irresolute outcomes
+            # must be a strict total order on them too (round 7, C08-r7B: digit names compared as numbers)
+            case = core.with_mixed_names(random.Random(case.seed), case)
         cfg = rulegen.gen_rule_cfg(rng, case, rules=("mes", "mes", "greedy", "phragmen"), allow_refuse=False, allow_init=False, allow_float=False)
         cfg["tie"] = "lexico"
         cfg["res"] = False
